@@ -6,6 +6,7 @@ mod gates;
 mod prog;
 mod rec;
 mod sets;
+mod trace;
 
 /// `C05_PROG="<set> ; <program>" h-c05 …`: run one field-chip program (replay / debugging).
 fn single(prog: &str) {
@@ -31,6 +32,11 @@ fn single(prog: &str) {
                     println!("  op {i} [{} {}] -> {o}", ops[i].name, ops[i].args.join(" "));
                 }
                 println!("stopped: {:?}", run.outcome.stopped);
+                if let Some(t) = fieldrun::trace_of::<$F, $K>(&ops) {
+                    for (i, o) in t.iter().enumerate() {
+                        println!("  trace {i}: {o}");
+                    }
+                }
                 if std::env::var("C05_REGIONS").is_ok() {
                     if let Some(rec) = fieldrun::record::<$F, $K>(&ops) {
                         let mut counts = vec![0usize; rec.regions.len()];
